@@ -214,6 +214,22 @@ func GenProgram(t *rapid.T, profile string) *Program {
 	for i := 0; i < n; i++ {
 		p.Actions = append(p.Actions, genAction(t, p, ws))
 	}
+	if profile == "restore" {
+		// the claims are about one Restore (at most two) under concurrency and
+		// follower lag, not about chains of restores across leader changes
+		seen := 0
+		kept := p.Actions[:0]
+		for _, a := range p.Actions {
+			if a.Op == "restore" {
+				seen++
+				if seen > 2 {
+					a = Action{Op: "apply", Srv: -1, N: 3, Dt: a.Dt}
+				}
+			}
+			kept = append(kept, a)
+		}
+		p.Actions = kept
+	}
 	lossyOdds := 3
 	if profile == "election" || profile == "verify" {
 		lossyOdds = 1
